@@ -270,8 +270,9 @@ def iterator(tier, drop=False):
         progs = [{"c1": [S("iter", "s1"), S("signal", "g"), S("next", "s1"), S("drop_iter", "s1")],
                   "c2": [D(1), D(2), S("wait", "g")] + STOP}]
     else:
+        # another subscription is released while the iterator is being fed: the iterator misses nothing
         progs = [{"c1": [S("iter", "s1"), S("signal", "g")] + [S("next", "s1")] * 4 + [S("drop_iter", "s1")],
-                  "c2": [S("add_sub", "s2"), D(1), D(2), S("wait", "g")] + STOP}]
+                  "c2": [S("add_sub", "s2"), D(1), D(2), S("unsub", "s2"), S("wait", "g")] + STOP}]
     return _i("iter_%s" % ("drop" if drop else "read"), progs, {1: 0, 2: 0}, cap=2,
               subs={"s1": {"kind": "iter", "cap": 1, "pol": "block"}, "s2": {"kind": "direct"}})
 
@@ -514,10 +515,11 @@ def table(pid, tier):
         T = dict(mc=[(i, inv, []) for i in insts], gen=[(i, 700 if q else 10000) for i in insts[:3]],
                  free=[(i, 60 if q else 500) for i in insts])
     elif pid == "C07":
-        a, b = pipeline_reg(tier), subs_unsub(tier)
+        a, b, c = pipeline_reg(tier), subs_unsub(tier), middleware(tier, 2)   # c: every verdict at every hook
         inv = ["C07_ReducerContext", "C07_DirectOnReducer", "C07_Registered", "C07_InitRegistered", "C01_Fold", "C09_Notified"]
-        T = dict(mc=[(a, inv, []), (b, inv, [])], gen=[(a, 1000 if q else 20000), (b, 500 if q else 20000)],
-                 free=[(a, 100 if q else 1500), (b, 60 if q else 1000)])
+        T = dict(mc=[(a, inv, []), (b, inv, []), (c, inv, [])],
+                 gen=[(a, 800 if q else 20000), (b, 400 if q else 20000), (c, 500 if q else 20000)],
+                 free=[(a, 100 if q else 1500), (b, 60 if q else 1000), (c, 40 if q else 600)])
     elif pid == "C08":
         a = readers(tier)
         inv = ["C08_Published", "C08_Valid", "C01_Fold"]
